@@ -100,6 +100,14 @@ def _worker_ctrl(items, base):
             if gen_ctrl.has_repeated_stmt(body):
                 # same program, but every repeated statement is ONE Expr object used several times
                 check_program(dict(prog, share=True), _C_CFGS[4:9:2], inputs, cache, out, size=size, driver="C-shared")
+            if size <= 2 and tail == "implicit":
+                # the same program beside two variables with requested (adjacent) slot ids that stay live
+                # across it: their values enter the result
+                m = prog["main"]
+                pinned = dict(prog, vars=dict(prog["vars"], p1=["u", 1], p2=["u", 2]))
+                pinned["main"] = (["Seq", ["Store", "p1", ["Int", 11]], ["Store", "p2", ["Int", 22]]] + m[1:-1] +
+                                  [["Add", m[-1], ["Mul", ["Load", "p1"], ["Load", "p2"]]]])
+                check_program(pinned, _C_CFGS[::3], inputs, cache, out, size=size, driver="C-pinned")
         out["counters"]["states"] = out["counters"].get("states", 0) + 1
         out["counters"]["transitions"] = out["counters"].get("transitions", 0) + gen_ctrl.count_transitions(body)
         if len(cache.cache) > 20000:
